@@ -298,10 +298,15 @@ def gen_retry_policy(notes: list[str]) -> list[str]:
             if cls is not None:
                 m = next((n for n in cls.body if isinstance(n, ast.FunctionDef) and n.name == op), None)  # type: ignore[union-attr]
                 if m is not None:
-                    ret = next((n for n in ast.walk(m) if isinstance(n, ast.Return)), None)
-                    if ret is not None and isinstance(ret.value, ast.Call) and isinstance(ret.value.func, ast.Name):
+                    stmts = [n for n in m.body if not (isinstance(n, ast.Expr) and isinstance(n.value, ast.Constant) and isinstance(n.value.value, str))]
+                    ret = stmts[0] if len(stmts) == 1 and isinstance(stmts[0], ast.Return) else None
+                    if ret is not None and isinstance(ret.value, ast.Call) and isinstance(ret.value.func, ast.Name) \
+                            and all(isinstance(a, ast.Name) for a in ret.value.args) and not ret.value.keywords:
                         args = [a.id for a in ret.value.args if isinstance(a, ast.Name)]
                         target = f"{ret.value.func.id}({','.join(args)})"
+                    else:
+                        # anything but a single `return combinator(self, other)`: record the body as it is, the sugar theorem will not match
+                        target = " ; ".join(ast.unparse(n) for n in stmts)[:300]
             sugar[f"{base}.{op}"] = target or "<missing>"
     for k, v in sugar.items():
         L.append(f"def sugar_{k.replace('.', '_').strip('_')} : String := {lean_str(v)}")
